@@ -88,7 +88,7 @@ func TestRecordDividers(t *testing.T) {
 
 // ---- large magnitudes: the same postcondition (C14) evaluated with big integers, because TLC integers are 32 bit.
 
-func bigProp(c divCall, res [][2]uint, resNil bool) error {
+func bigProp(c divCall, res [][2]uint, resNil bool, consOnly ...bool) error {
 	if resNil {
 		return fmt.Errorf("nil result")
 	}
@@ -133,6 +133,9 @@ func bigProp(c divCall, res [][2]uint, resNil bool) error {
 				return fmt.Errorf("foreign key %d created", kv[0])
 			}
 		}
+	}
+	if len(consOnly) > 0 && consOnly[0] { // conservation and "nothing else changes" only
+		return nil
 	}
 	for i := 0; i+1 < len(inc); i++ {
 		if inc[i].Cmp(inc[i+1]) < 0 {
@@ -234,5 +237,35 @@ func TestLargeDividers(t *testing.T) {
 			}
 		}
 	}
-	t.Logf("LARGE calls=%d bad=%d", 2*n, bad)
+	// priorities so large that their sum does not fit a machine word (it wraps, possibly to 0): the conservation clause and
+	// "changes nothing else" are stated for every list; the proportionality clauses are not judged here (with a wrapped sum the
+	// code's notion of proportion is not the mathematical one, and the property's rounding bound is about the latter)
+	const maxU = ^uint(0)
+	wrapLists := [][]uint{{maxU, 1}, {maxU - 6, 7}, {maxU, 2, 1}, {1 << 63, 1 << 62, 1<<62 - 1, 1}, {1 << 63, 1<<63 - 1, 1}, {maxU, maxU - 1, 3},
+		{maxU - 1, 2}, {1 << 63, 1 << 62, 1 << 61}, {maxU}, {0}, {maxU, maxU - 1, maxU - 2, 3}, {1 << 63, 1 << 63 - 5, 5}}
+	wraps := 0
+	for _, list := range wrapLists {
+		for _, d := range []uint{0, 1, 2, 3, 7, 10, 64, 1000, 1 << 16, 1 << 31} {
+			for _, pre := range []map[uint]uint{{}, {list[0]: 5, 77: 3}} {
+				for _, fn := range []string{"fair", "rate"} {
+					c := callDividers(fn, list, d, pre)
+					wraps++
+					var why string
+					if err := bigProp(c, c.V1, c.V1Nil, true); err != nil {
+						why = "v1: " + err.Error()
+					} else if err := bigProp(c, c.V2, c.V2Nil, true); err != nil {
+						why = "v2: " + err.Error()
+					}
+					if why != "" {
+						bad++
+						out.put(map[string]any{"call": c, "why": why})
+						if bad <= 3 {
+							t.Logf("C14 counterexample: %s %+v", why, c)
+						}
+					}
+				}
+			}
+		}
+	}
+	t.Logf("LARGE calls=%d bad=%d wrapped_sum_calls=%d", 2*n, bad, wraps)
 }
